@@ -10,7 +10,7 @@ from __future__ import annotations
 
 import z3
 
-from .core import (SymInt, SymBool, Unsupported, cur, mk_bool, bv, is_sym, Ite, And, Or, Not, W)
+from .core import (SymInt, SymBool, Unsupported, cur, mk_bool, bv, is_sym, Ite, And, Or, Not)
 
 _WS = (9, 10, 11, 12, 13, 32)
 
